@@ -820,7 +820,7 @@ pub fn run(thorough: bool, seed: u64, driver: &str, rep: &mut Report) {
                         let e = p.expect_line.clone().unwrap_or_default();
                         let agree = if e == "err" { m.starts_with("err") } else { *m == e };
                         if !agree {
-                            rep.mismatch("c18.cli", &format!("{}:differs", reqs[i].split('\t').take(2).collect::<Vec<_>>().join(".")), &p.ctx, &e, m);
+                            rep.mismatch("c18.cli", &format!("{}:differs", reqs[i].split('\t').take(if reqs[i].starts_with("cli.") { 1 } else { 2 }).collect::<Vec<_>>().join(".")), &p.ctx, &e, m);
                         }
                     }
                     "cmp" => {
